@@ -474,6 +474,32 @@ func (c *FnCtx) paramNames(fn *types.Func, ct *Contract) (recv string, params []
 }
 
 func (c *FnCtx) callFunc(env *Env, fn *types.Func, recv *Val, args []Val, x *ast.CallExpr, targs []types.Type) Val {
+	// call-site assertions of the contract (`assert before|after Name#k: e`), top-level body only
+	site := ""
+	if c.C != nil && len(c.C.Asserts) > 0 && len(c.frames) == 1 && c.inSpec == 0 {
+		c.siteN[fn.Name()]++
+		site = fmt.Sprintf("%s#%d", fn.Name(), c.siteN[fn.Name()])
+		c.siteAsserts(env.st, "before "+site, x)
+	}
+	v := c.callFuncInner(env, fn, recv, args, x, targs)
+	if site != "" {
+		c.siteAsserts(env.st, "after "+site, x)
+	}
+	return v
+}
+
+func (c *FnCtx) siteAsserts(st *State, site string, x *ast.CallExpr) {
+	for _, cl := range c.C.Asserts[site] {
+		if st.dead() {
+			return
+		}
+		g := c.eval(c.specEnvAt(st, x.Pos()), cl.Expr)
+		c.oblige(st, "assert", cl.Label, g.T, cl.Src, cl.Try, x)
+		c.assume(st, g.T)
+	}
+}
+
+func (c *FnCtx) callFuncInner(env *Env, fn *types.Func, recv *Val, args []Val, x *ast.CallExpr, targs []types.Type) Val {
 	key := FuncKey(fn)
 	sig := fn.Type().(*types.Signature)
 	ct := c.E.Contracts[key]
